@@ -1,5 +1,5 @@
 #!/bin/bash
-# C05 finding `damage/fragment/unverified-content`:
+# C05 finding `damage/blob/unverified-content`:
 # blobs are content addressed (file name = BLAKE3 of the content) but
 # Store::read_blob (crates/cache/src/lib.rs) only checks the 8-byte header, and
 # Incremental::try_restore never compares Fragment::src_path with the file it is
